@@ -8,6 +8,7 @@ SFI = 'DocumentTemplate.DT_Util.SequenceFromIter'
 OPT = 'DocumentTemplate.DT_InSV.opt'
 WB = 'DocumentTemplate.DT_In.InClass.renderwb'
 WOB = 'DocumentTemplate.DT_In.InClass.renderwob'
+PBT = 'DocumentTemplate.DT_InSV.sequence_variables.previous_batches#C12'
 
 
 def _bounded(tier):
@@ -20,16 +21,19 @@ def _bounded(tier):
 PROP = Prop(
     'C12',
     contracts=[REGISTRY[SFI + '.__getitem__'], REGISTRY[SFI + '.__getitem__#unbounded'], REGISTRY[SFI + '.__len__'],
-               REGISTRY[OPT], REGISTRY[WB], REGISTRY[WOB]],
+               REGISTRY[OPT], REGISTRY[WB], REGISTRY[WOB], REGISTRY[PBT]],
     claims=[SFI + '*', OPT + '::ensures.no_neg_probe', OPT + '::ensures.len_only_after_failed_probe', OPT + '::ensures.pull_bound',
-            WB + '::*C12.*', WOB + '::*C12.*', WB + '::call.opt.*'],
+            WB + '::*C12.*', WOB + '::*C12.*', WB + '::call.opt.*', PBT + '::*'],
     native_default=native_c12.native_for,
     bounded=[_bounded],
     assumptions=['0 <= overlap < size and orphan >= 0 (the property\'s "one look-ahead batch" bound is stated for these)'],
     not_decided=['unbatched rendering pulls every element exactly once: follows from SequenceFromIter.__len__ (all pulled, each '
                  'next() result stored once) and the loop "for index in range(l_)" reading stored elements; the composition is '
                  'not a separate mechanised obligation',
-                 'sort, reverse, sequence-length, next-batches and statistics are excepted by the property'],
+                 'sort, reverse, sequence-length, next-batches and statistics are excepted by the property',
+                 'of the per-item variables only previous-batches is under a laziness contract; the other names of '
+                 'sequence_variables.__getitem__ read the current element or the data dictionary (C10 contracts) and are not given a '
+                 'pull-count clause'],
 )
 
 MANIFEST = dict(
@@ -39,7 +43,8 @@ MANIFEST = dict(
          'exhausts; opt never probes a negative index, calls len() only after a failed probe, and pulls at most the window plus '
          'orphan; renderwb keeps pulled <= max(pulled at entry, end+size+orphan) through the whole loop (inductive invariant and '
          'cut-point obligations) and calls len() only when a probe has exhausted the sequence; the name form caches the wrapped '
-         'sequence so the body sees the same memoising wrapper.',
+         'sequence so the body sees the same memoising wrapper; previous-batches (not an excepted request) pulls nothing beyond '
+         'the previous window (start - 1 + overlap), which is within the look-ahead bound, and terminates.',
     note='Trusted: pyvc, z3, CPython ast. Assumed: abstract lazy-sequence model with ghost pull counter; 0 <= overlap < size, '
          'orphan >= 0, integer parameters.',
     technique='contract-based deductive verification (pyvc symbolic execution, ghost pull counter, loop invariants, z3 with quantifiers)',
